@@ -269,6 +269,9 @@ impl Prop for C14Prop {
         if no_result && has_macro_mentioning_macro(text) {
             return Some("macro-expansion-that-feeds-itself-is-unbounded");
         }
+        if no_result && !defs_of(text, &["defmac"]).is_empty() && has_recursive_function(text) {
+            return Some("defmac-time-call-of-a-non-terminating-function-is-unbounded");
+        }
         if no_result && defconst_computes_function_value(text) {
             return Some("defconst-computing-a-function-value-recompiles-the-program-without-bound");
         }
